@@ -75,7 +75,14 @@ func judgeDrops(rec []int, key, picStart []bool, n int) (string, string) {
 	return "", ""
 }
 
-func stall(n, G, slices, limit int, openAfter bool, panicAt int) func(x *vrt.Exec) {
+type panicCloser struct{ *hx.Rec }
+
+func (p panicCloser) Close() error {
+	p.Rec.Closed++
+	panic("consumer Close failure injected by harness")
+}
+
+func stall(n, G, slices, limit int, openAfter bool, panicAt int, closePanics bool) func(x *vrt.Exec) {
 	return func(x *vrt.Exec) {
 		media.VerifReset()
 		s := media.VerifNewCacheStream("/c04", false)
@@ -93,7 +100,11 @@ func stall(n, G, slices, limit int, openAfter bool, panicAt int) func(x *vrt.Exe
 					panic("consumer failure injected by harness")
 				}
 			}}
-			s.StartConsume(pan, media.RTPPacket, "panicker")
+			var c media.Consumer = pan
+			if closePanics {
+				c = panicCloser{pan}
+			}
+			s.StartConsume(c, media.RTPPacket, "panicker")
 		}
 		maxQ := 0
 		x.SetInvariant(func(x *vrt.Exec) {
@@ -141,6 +152,9 @@ func stall(n, G, slices, limit int, openAfter bool, panicAt int) func(x *vrt.Exe
 			if s.ConsumerCount() != want {
 				x.Failf("panicking-consumer-still-counted", "ConsumerCount=%d want %d", s.ConsumerCount(), want)
 			}
+			if len(s.VerifRegistered()) != want {
+				x.Failf("panicking-consumer-still-registered", "%d consumers registered, want %d", len(s.VerifRegistered()), want)
+			}
 		}
 		if openAfter {
 			g.open = true
@@ -175,12 +189,13 @@ func scenarios(thorough bool) []runner.Scenario {
 	}
 	var out []runner.Scenario
 	for _, G := range []int{1, 2, 3} {
-		out = append(out, runner.Scenario{Name: fmt.Sprintf("stall-G%d-resume", G), Body: stall(9, G, 1, 3, true, -1), P: p, Shards: sh})
+		out = append(out, runner.Scenario{Name: fmt.Sprintf("stall-G%d-resume", G), Body: stall(9, G, 1, 3, true, -1, false), P: p, Shards: sh})
 	}
 	out = append(out,
-		runner.Scenario{Name: "stall-G2-never-resumes", Body: stall(8, 2, 1, 3, false, -1), P: p, Shards: sh},
-		runner.Scenario{Name: "stall-G3-panicker", Body: stall(8, 3, 1, 3, true, 2), P: p, Shards: sh},
-		runner.Scenario{Name: "stall-G3-2slice-key-pictures", Body: stall(10, 3, 2, 3, true, -1), P: p, Shards: sh},
+		runner.Scenario{Name: "stall-G2-never-resumes", Body: stall(8, 2, 1, 3, false, -1, false), P: p, Shards: sh},
+		runner.Scenario{Name: "stall-G3-panicker", Body: stall(8, 3, 1, 3, true, 2, false), P: p, Shards: sh},
+		runner.Scenario{Name: "stall-G3-panicker-close-panics-too", Body: stall(8, 3, 1, 3, true, 1, true), P: p, Shards: sh},
+		runner.Scenario{Name: "stall-G3-2slice-key-pictures", Body: stall(10, 3, 2, 3, true, -1, false), P: p, Shards: sh},
 	)
 	return out
 }
